@@ -28,7 +28,7 @@ EXPLANATION = (
 
 
 class Obligation:
-    def __init__(self, name, fn, params=None, time_limit=None, kind='forall', max_paths=None, finalize=None, max_violations=3):
+    def __init__(self, name, fn, params=None, time_limit=None, kind='forall', max_paths=None, finalize=None, max_violations=3, cross_check=0):
         self.name = name
         self.fn = fn
         self.params = params or {}
@@ -36,6 +36,7 @@ class Obligation:
         self.kind = kind  # 'forall' (symbolic exploration) | 'concrete' (plain finite check, reported apart)
         self.max_paths = max_paths
         self.max_violations = max_violations
+        self.cross_check = cross_check  # number of verification conditions to re-decide with the cvc5 binary (0 = none)
         self.finalize = finalize  # finalize(bag) -> list of confirmed violation dicts (existential claims over all paths)
 
 
@@ -83,8 +84,16 @@ def _run_one(i):
                     sys.setprofile(None)
             return ob.fn(sx)
 
+        if ob.cross_check:
+            ex.export_vcs, ex.export_cap = [], ob.cross_check
         ex.explore(fn)
         st = ex.stats()
+        if ob.cross_check:
+            st['second_solver'] = _second_solver(ex.export_vcs)
+            if st['second_solver']['disagree'] or st['second_solver']['error']:
+                ex.inconclusive_reasons.append('second solver disagrees or failed on a verification condition')
+                ex.exhausted = False
+                st = dict(ex.stats(), second_solver=st['second_solver'])
         final_viol = []
         if ob.finalize is not None and ex.exhausted and not ex.violations:
             final_viol = list(ob.finalize(ex.bag))
@@ -102,6 +111,36 @@ def _run_one(i):
         out.update(status='error', error=''.join(traceback.format_exception(type(e), e, e.__traceback__))[-3000:],
                    stats={}, violations=[], functions=[], samples=[])
     out['wall_s'] = round(time.perf_counter() - t0, 3)
+    return out
+
+
+def _second_solver(vcs):
+    """re-decide exported verification conditions with the cvc5 binary; every one must be unsat"""
+    import subprocess
+    import tempfile
+    out = dict(solver='cvc5 binary', checked=0, unsat=0, disagree=0, error=0, unknown=0, seconds=0.0)
+    t0 = time.perf_counter()
+    for label, smt in vcs:
+        with tempfile.NamedTemporaryFile('w', suffix='.smt2', delete=False, dir=os.environ.get('TMPDIR', '/tmp')) as f:
+            f.write('(set-logic ALL)\n' + smt)
+            path = f.name
+        try:
+            p = subprocess.run(['cvc5', '--tlimit=20000', path], capture_output=True, text=True, timeout=40)
+            ans = p.stdout.strip().splitlines()[0] if p.stdout.strip() else ''
+            out['checked'] += 1
+            if '(error' in p.stdout or '(error' in p.stderr:
+                out['error'] += 1
+            elif ans == 'unsat':
+                out['unsat'] += 1
+            elif ans == 'sat':
+                out['disagree'] += 1
+            else:
+                out['unknown'] += 1
+        except Exception:
+            out['error'] += 1
+        finally:
+            os.unlink(path)
+    out['seconds'] = round(time.perf_counter() - t0, 2)
     return out
 
 
@@ -262,6 +301,7 @@ def run_property(modname, tier, seed=0, only=None, jobs=None):
         concrete_side_checks=[dict(name=r['name'], status=r['status'], cases=r['stats'].get('paths'), detail=r.get('concrete', {}).get('detail'))
                               for r in conc],
         known_findings_hit=[h['id'] for h, _, _ in known_hits],
+        second_solver=_merge_second(sym),
     )
     ev = dict(property_id=prop, tier=tier, seed=seed, level=level, coverage=coverage,
               assumptions=getattr(mod, 'ASSUMPTIONS', []), wall_s=round(time.time() - t0, 2), violations=n_viol)
@@ -273,6 +313,18 @@ def run_property(modname, tier, seed=0, only=None, jobs=None):
           f"paths={coverage['evaluations']} nontrivial={coverage['distinct_nontrivial']} queries={coverage['queries']} "
           f"solver_s={coverage['solver_s']} concrete_side_checks={len(conc)} violations={n_viol} wall={ev['wall_s']}s")
     return exit_code
+
+
+def _merge_second(results):
+    tot = None
+    for r in results:
+        ss = r['stats'].get('second_solver')
+        if ss:
+            if tot is None:
+                tot = dict(solver=ss['solver'], checked=0, unsat=0, disagree=0, error=0, unknown=0, seconds=0.0)
+            for k in ('checked', 'unsat', 'disagree', 'error', 'unknown', 'seconds'):
+                tot[k] = round(tot[k] + ss[k], 2)
+    return tot or 'not run in this tier'
 
 
 def _merge_cover(results):
